@@ -52,7 +52,7 @@ func (fm *fieldMap) Reset() {
 // }
 
 func (self *fieldMap) SetIfNotExist(f fieldID, ft FieldMaskType, black bool) (s *FieldMask) {
-	if f <= _MaxFieldIDHead {
+	if f >= 0 && f <= _MaxFieldIDHead {
 		s = self.head[f]
 		if s == nil {
 			fm := newFieldMask(ft, black)
@@ -75,7 +75,7 @@ func (self *fieldMap) SetIfNotExist(f fieldID, ft FieldMaskType, black bool) (s 
 }
 
 func (self *fieldMap) Get(f fieldID) (ret *FieldMask) {
-	if f <= _MaxFieldIDHead {
+	if f >= 0 && f <= _MaxFieldIDHead {
 		ret = self.head[f]
 	} else {
 		ret = self.tail[f]
